@@ -112,8 +112,9 @@ def tb(e):
 	return "".join(traceback.format_exception(type(e), e, e.__traceback__))[-1200:]
 
 
-REESTABLISH = ["RFMUTE 0", "SETPOWER 0", "SETTA 0", "FAKE_TOA 0 0", "FAKE_RSSI -60 -1", "FAKE_CI 90 0", "FAKE_DROP 0",
+REESTABLISH = ["RFMUTE 0", "SETPOWER 0", "SETTA 0", "FAKE_TOA 0 0", "FAKE_RSSI -60 -1", "FAKE_CI 90 0",
 	"FAKE_TRXC_DELAY 0"]
+DROPS = ["FAKE_DROP 0", "FAKE_DROP 0", "FAKE_DROP 40 3", "FAKE_DROP 25", "FAKE_DROP 60 2"]   # a loss simulation may be in progress
 
 
 def session(ctx, r, idx):
@@ -125,12 +126,14 @@ def session(ctx, r, idx):
 		bench.cmd(i, "TXTUNE %d" % tx)
 		bench.cmd(i, "SETFORMAT %d" % r.choice((0, 1)))
 		bench.cmd(i, "POWERON")
+		bench.cmd(i, r.choice(DROPS))
 	fn = r.randrange(trxd.HYPERFRAME)
 	for step in range(r.randint(10, 30)):
 		i = r.randrange(2)
 		node = bench.nodes[i]
 		w = {"history": log[-10:]}
 		dirty = False
+		poisoned = False
 		if r.random() < 0.55:
 			payload, kind, parsed = hostile_ctrl(r)
 			log.append("%s CTRL <- %s: %r" % (specs[i]["name"], kind, payload[:60]))
@@ -150,6 +153,7 @@ def session(ctx, r, idx):
 			well_formed = parsed is not None and payload.startswith(b"CMD ") and all(trxc.is_intlit(a) for a in parsed[1])
 			if well_formed:
 				# goes through the protocol model like any other command
+				snap = dict(bench.models[i].__dict__)
 				mst, _ = trxc.apply(bench.models[i], parsed[0], parsed[1], bench.models)
 				if parsed[0] == "FAKE_DROP" and mst == 0:
 					bench.budgets[i].set(bench.models[i].drop_amount, bench.models[i].drop_period)
@@ -163,7 +167,9 @@ def session(ctx, r, idx):
 				if hostile_value:
 					# not defined by the protocol: an error status, or acceptance that does no harm later
 					if p is not None and p[1] != 0:
-						undo_model(bench.models[i], parsed)
+						bench.models[i].__dict__.update(snap)     # refused: nothing may have changed
+					else:
+						poisoned = True
 					ctx.count("hostile_values_answered_%s" % ("error" if p and p[1] != 0 else "ok"))
 				elif p is None or (isinstance(mst, int) and p[1] != mst):
 					ctx.violation("ctrl-reply", dict(w, datagram = payload[:120].hex(), reply = rsp[0][:80].hex(), expected_status = mst),
@@ -230,12 +236,26 @@ def session(ctx, r, idx):
 			fn = (fn + 5) % trxd.HYPERFRAME
 			m = {"dir": "tx", "ver": bench.models[s].ver, "fn": fn, "tn": r.randrange(8), "pwr": 0, "bits": trxd.rand_bits(r, 148)}
 			try:
-				bench.transmit(s, m)
+				if bench.models[s].fh is not None and any(f < 0 for p in bench.models[s].fh[2] for f in p):
+					continue
+				acc, got = bench.transmit(s, m)
 				ctx.count("bursts_right_after_hostile_input")
 			except Exception as e:
 				ctx.violation("tick-escape", dict(history = log[-10:], traceback = tb(e)),
 					what = "%s escapes the clock tick that forwards the next burst after hostile input" % type(e).__name__)
 				return
+			if not poisoned:
+				# model and transceiver are in step (the hostile input was ignored, refused, or a well-formed
+				# command with a defined effect): the burst must come out exactly as the model says
+				j = 1 - s
+				if acc and j in bench.recipients(s, m["fn"]):
+					e = radio.expected(bench.models[s], bench.models[j], bench.budgets[j], m, m["bits"])
+					res = radio.check(e, got[j], bench.budgets[j])
+					ctx.count("bursts_right_after_checked")
+					if isinstance(res, str):
+						ctx.violation("after-hostile", dict(history = log[-12:], expected = {k: v for k, v in e.items() if k != "soft"}),
+							what = "the hostile input changed later behaviour: " + res)
+						return
 		# probe: re-establish a known configuration with valid commands, then a valid burst
 		if r.random() < 0.5:
 			if not probe(ctx, r, bench, specs, log):
@@ -245,29 +265,16 @@ def session(ctx, r, idx):
 		ctx.sample("session", log[:12])
 
 
-def undo_model(m, parsed):
-	verb, args = parsed
-	# the transceiver refused it: recompute the model from scratch values it certainly still has
-	if verb == "FAKE_TOA":
-		m.toa_thr = 0
-	elif verb == "FAKE_CI":
-		m.ci_thr = 0
-	elif verb == "SETFH":
-		m.fh = None
-	elif verb == "FAKE_TRXC_DELAY":
-		m.trxc_delay_ms = 0
-
-
 def resync(ctx, r, bench, log, nodes = (0, 1)):
 	""" Re-establish every modelled setting with valid absolute commands, so that the
 	    reference model and the transceiver agree again whatever a hostile datagram did. """
 	try:
 		for i in nodes:
-			for c in REESTABLISH + ["SETFORMAT %d" % r.choice((0, 1))]:
+			for c in REESTABLISH + [r.choice(DROPS), "SETFORMAT %d" % r.choice((0, 1))]:
 				st = bench.nodes[i].ctrl(c)
 				mst, _ = trxc.apply(bench.models[i], c.split(" ")[0], c.split(" ")[1:], bench.models)
 				if c.startswith("FAKE_DROP"):
-					bench.budgets[i].set(0, 1)
+					bench.budgets[i].set(bench.models[i].drop_amount, bench.models[i].drop_period)
 				if st != mst:
 					ctx.violation("probe", {"history": log[-10:], "command": c},
 						what = "valid command %s answered %d (expected %d) after hostile input" % (c, st, mst))
